@@ -1,5 +1,5 @@
 (* C01 — decoding untrusted bytes never panics, aborts or overflows. *)
-From DNS Require Import Model.Dec Proofs.DecBase Proofs.DecSafe Proofs.DecTotal.
+From DNS Require Import Gen.Audit Proofs.Audit Model.Dec Proofs.DecBase Proofs.DecSafe Proofs.DecTotal.
 
 (* total r: the call returned a value or an error value — not DPanic (a checked operation of the
    model out of range: slice index, integer overflow, copy_from_slice length) and not DFuel (a
@@ -27,6 +27,12 @@ Proof. exact accessors_total. Qed.
 Print Assumptions C01_accessors_total.
 
 (* ---- non-vacuity: accepted and rejected inputs ---- *)
+(* the panic-capable constructs of the library's non-test source (re-read from /repo/src on this run) are
+   exactly the ones the model accounts for: a new unwrap / index / slice breaks this obligation *)
+Theorem C01_sites : audit_panic_sites = known_panic_sites.
+Proof. exact panic_sites_known_proof. Qed.
+Print Assumptions C01_sites.
+
 Example C01_ex_header :
   dec_Dns [0;1;1;0;0;0;0;0;0;0;0;0] =
   DOk {| m_id := 1;
